@@ -235,10 +235,15 @@ class H:
         return compile_q(qd, mk_time)
 
     # ---- read observations (C01)
-    def check_reads(self, qd, mfilter=None, what="", select_keys=("time", "measurement", "tags.k", "fields.f")):
+    def check_reads(self, qd, mfilter=None, what="", select_keys=("time", "measurement", "tags.k", "fields.f"), via=None):
         db, model = self.db, self.model
         tag = f"{what} q={q_repr(qd)} measurement={show(mfilter)}"
         kw = {} if mfilter is None else {"measurement": mfilter}
+        if via is not None:  # through a Measurement handle
+            db = _target(self, via)
+            mfilter = via
+            kw = {}
+            tag = f"{what} q={q_repr(qd)} via measurement({via!r})"
         try:
             got = db.search(self.compile(qd), sorted=False, **kw)
         except Exception as e:
@@ -344,8 +349,18 @@ def _now_us():
 
 
 def _target(h, via):
-    """The object operations are invoked on: the database or a measurement handle."""
-    return h.db if via is None else h.db.measurement(via)
+    """The object operations are invoked on: the database or a measurement handle.
+
+    With cfg["stale_handles"] the handle obtained first is kept and reused, so that later
+    operations go through a handle that predates drop_measurement / remove_all."""
+    if via is None:
+        return h.db
+    if h.cfg.get("stale_handles"):
+        cache = h.__dict__.setdefault("handle_cache", {})
+        if via not in cache:
+            cache[via] = h.db.measurement(via)
+        return cache[via]
+    return h.db.measurement(via)
 
 
 def op_insert(h, pspec, via=None, measurement=None, compact=False):
@@ -411,7 +426,7 @@ def op_remove(h, qd, mfilter=None, via=None):
     q = h.compile(qd)
     try:
         if via is not None:
-            r = h.db.measurement(via).remove(q)
+            r = _target(h, via).remove(q)
             mfilter = via
         elif mfilter is not None:
             r = h.db.remove(q, mfilter)
@@ -430,7 +445,7 @@ def op_remove_all(h, via=None):
             h.model.remove_all()
             require(r is None, lambda: f"remove_all returned {show(r)}")
         else:
-            r = h.db.measurement(via).remove_all()
+            r = _target(h, via).remove_all()
             n = h.model.remove(None, via)
             require(r == n, lambda: f"Measurement.remove_all returned {show(r)}, model removed {n}")
     except Exception as e:
@@ -504,7 +519,7 @@ def op_update(h, qd, us, via=None, all_=False):
             if via is None:
                 r = h.db.update_all(**kw)
             else:
-                r = h.db.measurement(via).update_all(**kw)
+                r = _target(h, via).update_all(**kw)
         else:
             r = _target(h, via).update(h.compile(qd), **kw)
     except Exception as e:
